@@ -1,5 +1,6 @@
 import GeomV.C20.Spec
 import GeomV.C20.ParseAgree
+import GeomV.C20.TransformAgree
 import GeomV.C20.Agree.Geog
 import GeomV.C20.Agree.Merc
 import GeomV.C20.Agree.Lcc
